@@ -262,16 +262,16 @@ class Ctx:
             ) from exc
 
     def run_given(self, part: str, strategy, oracle: Callable, max_examples: int, *, shrink: bool = True):
-        """Hypothesis-driven part with collect-then-shrink over root-cause buckets."""
+        """Hypothesis-driven part with collect-then-shrink over root-cause buckets.
+
+        The search phase never shrinks; when it fails, the same seeded run is repeated with the
+        shrink phase only if the oracle is cheap (mean < 25 ms per case) - Hypothesis' shrinker has
+        a hard 5-minute cap per failure, which is too long for compile-bound oracles on a tree with a
+        pervasive defect.  An unshrunk failing case is still a complete replay file."""
         import hypothesis
         from hypothesis import HealthCheck, Phase, given, settings
 
-        phases = [Phase.explicit, Phase.generate, Phase.target]
-        if shrink:
-            phases.append(Phase.shrink)
-        found = 0
-        sub = 0
-        while True:
+        def attempt(sub, phases):
             st_settings = settings(
                 max_examples=max_examples,
                 database=None,
@@ -289,10 +289,25 @@ class Ctx:
             def test(case):
                 self.call(part, oracle, case)
 
+            test()
+
+        search = [Phase.explicit, Phase.generate, Phase.target]
+        found = 0
+        sub = 0
+        while True:
             try:
-                test()
+                attempt(sub, search)
                 return
             except Violation as v:
+                n = max(self.part_evals.get(part, 0), 1)
+                cheap = self.part_time.get(part, 0.0) / n < 0.025
+                if shrink and cheap:
+                    try:
+                        attempt(sub, search + [Phase.shrink])
+                    except Violation as v2:
+                        v = v2
+                    except hypothesis.errors.Flaky:
+                        pass
                 self.violations.append(v)
                 self.skip_buckets.add(v.bucket)
                 found += 1
